@@ -1966,3 +1966,211 @@ Proof.
   replace ((0 <=? k) && (k <? 0 + nlen rhs)) with true by lia.
   rewrite Z.sub_0_r, Hv, testbit_mask by lia. replace (k <? ewidth lhs) with true by lia. reflexivity.
 Qed.
+
+(* ---- part-select and concatenation targets: the induction steps of emit_assign_bits for EPart / ECat, proved as
+   standalone lemmas over `ea_spec` (= the statement of emit_assign_bits for one target); not yet wired into the
+   induction of emit_assign_bits (tclass still excludes EPart / ECat) ---- *)
+
+Definition ea_spec (ss : nat -> shape) (curr : env) (rho : valuation) (selnets : expr -> list net) (lhs : expr) : Prop :=
+  forall start rhs cond i b old, aval rho cond = true -> 0 <= start -> start + nlen rhs <= ewidth lhs ->
+  0 <= b < width (ss i) ->
+  Z.testbit (wa_run rho i (width (ss i)) (emit_assign selnets lhs start rhs cond) old) b =
+  match wr curr lhs i b with
+  | Some k => if (start <=? k) && (k <? start + nlen rhs) then Z.testbit (nval rho rhs) (k - start) else Z.testbit old b
+  | None => Z.testbit old b
+  end.
+
+Lemma ceil_div_mul W st O : 0 <= W -> 1 <= st -> (W + st - 1) / st <= O -> W <= O * st.
+Proof.
+  intros HW Hst H. pose proof (Z.div_mod (W + st - 1) st ltac:(lia)) as Hd.
+  pose proof (Z.mod_pos_bound (W + st - 1) st ltac:(lia)) as Hm. nia.
+Qed.
+
+Lemma part_step ss curr rho selnets a off pw st :
+  ea_spec ss curr rho selnets a -> wf_lhs a = true -> sel_ok curr a ->
+  nlen (selnets off) = ewidth off -> nval rho (selnets off) = denote curr off -> 1 <= st -> 0 <= pw ->
+  ea_spec ss curr rho selnets (EPart a off pw st).
+Proof.
+  intros IHa Hwa Hsa Hnl Hnv Hst Hpw start rhs cond i b old Hc Hs0 Hfit Hb.
+  unfold ewidth in Hfit. cbn [shape_of width] in Hfit.
+  set (offn := selnets off) in *. set (W := ewidth a).
+  pose proof (ewidth_nonneg a Hwa) as HW. fold W in HW.
+  pose proof (nval_range rho offn) as HO. set (O := nval rho offn) in *.
+  pose proof (nlen_nonneg rhs) as Hr. pose proof (nlen_nonneg offn) as Hon.
+  set (ncases := Z.to_nat (Z.min ((W + st - 1) / st) (2 ^ nlen offn))).
+  set (pats := map (fun k => [to_binary (length offn) (Z.of_nat k)]) (seq 0 ncases)).
+  assert (Hnc : Z.of_nat ncases <= 2 ^ nlen offn).
+  { unfold ncases. pose proof (pow2_pos (nlen offn) Hon). lia. }
+  assert (Hav : forall k, (k < ncases)%nat -> aval rho (AMatch cond offn pats k) = (O =? Z.of_nat k)).
+  { intros k Hk. cbn [aval]. rewrite Hc. cbn [andb]. unfold pats. fold O.
+    rewrite (first_match_binary (length offn) O ltac:(unfold nlen in HO; lia) ncases 0%nat k Hk ltac:(unfold nlen in Hnc; simpl; lia)).
+    reflexivity. }
+  cbn [emit_assign wr]. fold offn W ncases pats.
+  (* the entries of the offsets in ks *)
+  match goal with |- Z.testbit (wa_run _ _ _ (?F (seq 0 ncases)) _) _ = _ =>
+    assert (Hgen : forall ks old', (forall k, In k ks -> (k < ncases)%nat) -> NoDup ks ->
+      Z.testbit (wa_run rho i (width (ss i)) (F ks) old') b =
+      if existsb (fun k => O =? Z.of_nat k) ks
+      then Z.testbit (wa_run rho i (width (ss i))
+                       (if W <=? start + O * st then []
+                        else emit_assign selnets a (start + O * st)
+                               (if W <=? start + O * st + nlen rhs then firstn (Z.to_nat (W - (start + O * st))) rhs else rhs)
+                               (AMatch cond offn pats (Z.to_nat O))) old') b
+      else Z.testbit old' b) end.
+  { induction ks as [|k ks IHk]; intros old' Hin Hnd; [reflexivity|].
+    inversion Hnd as [|? ? Hni Hnd']; subst. cbn beta iota. cbn [existsb]. rewrite wa_run_app.
+    assert (Hk : (k < ncases)%nat) by (apply Hin; left; reflexivity).
+    destruct (O =? Z.of_nat k) eqn:Ek.
+    - assert (HOk : O = Z.of_nat k) by lia. cbn [orb].
+      rewrite IHk by (auto; intros; apply Hin; right; auto).
+      replace (existsb (fun k0 : nat => O =? Z.of_nat k0) ks) with false.
+      2:{ symmetry. apply not_true_is_false. intros Hex. apply existsb_exists in Hex. destruct Hex as [k' [Hk' Hek]].
+          assert (k' = k) by lia. subst. contradiction. }
+      rewrite <- HOk. replace (Z.to_nat O) with k by lia. reflexivity.
+    - cbn [orb]. replace (wa_run rho i (width (ss i)) _ old') with old'.
+      + apply IHk; auto. intros; apply Hin; right; auto.
+      + destruct (W <=? start + Z.of_nat k * st); [reflexivity|].
+        symmetry. apply emit_assign_false. rewrite Hav by auto. exact Ek. }
+  rewrite Hgen by (try apply seq_NoDup; intros k Hk; apply in_seq in Hk; lia).
+  clear Hgen. set (s := start + O * st).
+  assert (Hex : existsb (fun k => O =? Z.of_nat k) (seq 0 ncases) = (O <? Z.of_nat ncases)).
+  { destruct (O <? Z.of_nat ncases) eqn:E.
+    - apply existsb_exists. exists (Z.to_nat O). split; [apply in_seq; lia|lia].
+    - apply not_true_is_false. intros Hx. apply existsb_exists in Hx. destruct Hx as [k [Hk1 Hk2]]. apply in_seq in Hk1. lia. }
+  rewrite Hex. fold O in Hnv. rewrite <- Hnv. fold s.
+  assert (Hs : 0 <= s) by (unfold s; nia).
+  destruct (wr curr a i b) as [k'|] eqn:Ew.
+  - pose proof (wr_range curr a Hwa Hsa i b k' Ew) as Hk'. fold W in Hk'.
+    assert (Hout : W <= s -> (if (O * st <=? k') && (k' <? O * st + pw)
+                             then Some (k' - O * st) else None) = None \/
+                             exists kk, (if (O * st <=? k') && (k' <? O * st + pw) then Some (k' - O * st) else None) = Some kk /\
+                                        (start <=? kk) && (kk <? start + nlen rhs) = false).
+    { intros Hle. destruct ((O * st <=? k') && (k' <? O * st + pw)) eqn:E; [right|left; reflexivity].
+      exists (k' - O * st). split; [reflexivity|]. unfold s in Hle. lia. }
+    destruct (O <? Z.of_nat ncases) eqn:En.
+    + destruct (W <=? s) eqn:Es.
+      * cbn [wa_run fold_left]. destruct (Hout ltac:(lia)) as [-> |[kk [-> ->]]]; reflexivity.
+      * set (sub := if W <=? s + nlen rhs then firstn (Z.to_nat (W - s)) rhs else rhs).
+        assert (Hsl : nlen sub = Z.min (nlen rhs) (W - s)).
+        { unfold sub. destruct (W <=? s + nlen rhs) eqn:E; [|lia]. unfold nlen. rewrite firstn_length. unfold nlen in E. lia. }
+        assert (Hsv : forall j, 0 <= j < nlen sub -> Z.testbit (nval rho sub) j = Z.testbit (nval rho rhs) j).
+        { intros j Hj. unfold sub in *. destruct (W <=? s + nlen rhs) eqn:E; [|reflexivity].
+          rewrite testbit_nval_firstn by (unfold nlen in *; lia). replace (j <? Z.of_nat (Z.to_nat (W - s))) with true by lia. reflexivity. }
+        assert (Hact : aval rho (AMatch cond offn pats (Z.to_nat O)) = true).
+        { rewrite Hav by lia. lia. }
+        assert (Hfs : s + nlen sub <= ewidth a) by (fold W; lia).
+        rewrite (IHa s sub (AMatch cond offn pats (Z.to_nat O)) i b old Hact Hs Hfs Hb).
+        rewrite Ew. rewrite Hsl.
+        destruct ((s <=? k') && (k' <? s + Z.min (nlen rhs) (W - s))) eqn:Ein.
+        -- replace ((O * st <=? k') && (k' <? O * st + pw)) with true by (unfold s in *; lia).
+           replace ((start <=? k' - O * st) && (k' - O * st <? start + nlen rhs)) with true by (unfold s in *; lia).
+           rewrite Hsv by lia. f_equal. unfold s. lia.
+        -- destruct ((O * st <=? k') && (k' <? O * st + pw)); [|reflexivity].
+           replace ((start <=? k' - O * st) && (k' - O * st <? start + nlen rhs)) with false by (unfold s in *; lia). reflexivity.
+    + assert (W <= O * st).
+      { apply ceil_div_mul; auto. unfold ncases in En. pose proof (pow2_pos (nlen offn) Hon). lia. }
+      destruct (Hout ltac:(unfold s; lia)) as [-> |[kk [-> ->]]]; reflexivity.
+  - destruct (O <? Z.of_nat ncases) eqn:En; [|reflexivity].
+    destruct (W <=? s) eqn:Es; [reflexivity|].
+    assert (Hact : aval rho (AMatch cond offn pats (Z.to_nat O)) = true).
+    { rewrite Hav by lia. lia. }
+    rewrite (IHa s _ (AMatch cond offn pats (Z.to_nat O)) i b old Hact Hs).
+    + rewrite Ew. reflexivity.
+    + fold W. destruct (W <=? s + nlen rhs) eqn:E; [|lia]. unfold nlen. rewrite firstn_length. unfold nlen in E. lia.
+    + exact Hb.
+Qed.
+
+(* no signal is named by two parts of a concatenation (lin) *)
+Fixpoint pairwise_disj (ps : list expr) : Prop :=
+  match ps with
+  | [] => True
+  | p :: ps' => (forall q, In q ps' -> disjointb (sigs_of p) (sigs_of q) = true) /\ pairwise_disj ps'
+  end.
+
+Lemma lin_cat_pairwise l : lin (ECat l) = true -> Forall (fun p => lin p = true) l /\ pairwise_disj l.
+Proof.
+  cbn [lin]. intros H. apply andb_true_iff in H. destruct H as [H1 H2]. split.
+  - apply Forall_forall. apply forallb_forall. exact H1.
+  - clear H1. induction l as [|p ps IH]; [exact I|]. apply andb_true_iff in H2. destruct H2 as [H2 H3].
+    split; [apply forallb_forall; exact H2|apply IH; exact H3].
+Qed.
+
+Lemma cat_step ss curr rho selnets l :
+  Forall (fun p => ea_spec ss curr rho selnets p /\ wf_lhs p = true /\ sel_ok curr p) l -> pairwise_disj l ->
+  ea_spec ss curr rho selnets (ECat l).
+Proof.
+  intros Hall Hpw start rhs cond i b old Hc Hs0 _ Hb. pose proof (nlen_nonneg rhs) as Hr.
+  cbn [emit_assign wr].
+  match goal with |- Z.testbit (wa_run _ _ _ (?F l 0) _) _ = match ?G l 0 with _ => _ end =>
+    assert (Hgen : forall ps off old',
+      Forall (fun p => ea_spec ss curr rho selnets p /\ wf_lhs p = true /\ sel_ok curr p) ps -> pairwise_disj ps -> 0 <= off ->
+      Z.testbit (wa_run rho i (width (ss i)) (F ps off) old') b =
+      match G ps off with
+      | Some K => if (start <=? K) && (K <? start + nlen rhs) then Z.testbit (nval rho rhs) (K - start) else Z.testbit old' b
+      | None => Z.testbit old' b
+      end) end.
+  { induction ps as [|p ps IHp]; intros off old' Hf Hd Hoff; [reflexivity|].
+    inversion Hf as [|? ? [Hp1 [Hp2 Hp3]] Hf']; subst. destruct Hd as [Hd1 Hd2].
+    pose proof (ewidth_nonneg p Hp2) as Hwp. cbn beta iota.
+    (* what the part's own entries do to bit b *)
+    assert (Hpart : forall o0, Z.testbit (wa_run rho i (width (ss i))
+                      (if off + ewidth p <=? start then []
+                       else if start + nlen rhs <=? off then []
+                       else emit_assign selnets p (if start <? off then 0 else start - off)
+                              (nslice rhs (if start <? off then off - start else 0)
+                                          (if off + ewidth p <=? start + nlen rhs then off + ewidth p - start else nlen rhs)) cond) o0) b =
+                    match wr curr p i b with
+                    | Some k => if (start <=? k + off) && (k + off <? start + nlen rhs) then Z.testbit (nval rho rhs) (k + off - start)
+                                else Z.testbit o0 b
+                    | None => Z.testbit o0 b
+                    end).
+    { intros o0. destruct (off + ewidth p <=? start) eqn:E1.
+      { cbn [wa_run fold_left]. destruct (wr curr p i b) as [k|] eqn:Ew; [|reflexivity].
+        pose proof (wr_range curr p Hp2 Hp3 i b k Ew). replace ((start <=? k + off) && (k + off <? start + nlen rhs)) with false by lia. reflexivity. }
+      destruct (start + nlen rhs <=? off) eqn:E2.
+      { cbn [wa_run fold_left]. destruct (wr curr p i b) as [k|] eqn:Ew; [|reflexivity].
+        pose proof (wr_range curr p Hp2 Hp3 i b k Ew). replace ((start <=? k + off) && (k + off <? start + nlen rhs)) with false by lia. reflexivity. }
+      set (pls := if start <? off then 0 else start - off).
+      set (prs := if start <? off then off - start else 0).
+      set (pre := if off + ewidth p <=? start + nlen rhs then off + ewidth p - start else nlen rhs).
+      assert (Hrange : 0 <= prs <= pre /\ pre <= nlen rhs) by (unfold prs, pre; destruct (start <? off) eqn:Ea0, (off + ewidth p <=? start + nlen rhs) eqn:Eb0; lia).
+      destruct (nslice_spec rho rhs prs pre ltac:(lia) ltac:(lia)) as [Hsl Hsv].
+      rewrite (Hp1 pls (nslice rhs prs pre) cond i b o0 Hc ltac:(unfold pls; destruct (start <? off) eqn:Ea0; lia)
+                 ltac:(rewrite Hsl; unfold pls, prs, pre; destruct (start <? off) eqn:Ea0, (off + ewidth p <=? start + nlen rhs) eqn:Eb0; lia) Hb).
+      destruct (wr curr p i b) as [k|] eqn:Ew; [|reflexivity].
+      pose proof (wr_range curr p Hp2 Hp3 i b k Ew) as Hk. rewrite Hsl, Hsv.
+      destruct ((start <=? k + off) && (k + off <? start + nlen rhs)) eqn:Ewin.
+      - replace ((pls <=? k) && (k <? pls + (pre - prs))) with true
+          by (unfold pls, prs, pre; destruct (start <? off) eqn:Ea, (off + ewidth p <=? start + nlen rhs) eqn:Eb; lia).
+        rewrite testbit_bits_at by (unfold pls, prs in *; destruct (start <? off) eqn:Ea0; lia).
+        replace (k - pls <? pre - prs) with true
+          by (unfold pls, prs, pre; destruct (start <? off) eqn:Ea, (off + ewidth p <=? start + nlen rhs) eqn:Eb; lia).
+        cbn [andb]. f_equal. unfold pls, prs. destruct (start <? off) eqn:Ea0; lia.
+      - replace ((pls <=? k) && (k <? pls + (pre - prs))) with false
+          by (unfold pls, prs, pre; destruct (start <? off) eqn:Ea, (off + ewidth p <=? start + nlen rhs) eqn:Eb; lia).
+        reflexivity. }
+    match goal with |- Z.testbit (wa_run _ _ _ (if _ then ?X else _) _) _ = _ => set (rest := X) end.
+    assert (Hsplit : wa_run rho i (width (ss i))
+                       (if off + ewidth p <=? start then rest
+                        else if start + nlen rhs <=? off then rest
+                        else emit_assign selnets p (if start <? off then 0 else start - off)
+                               (nslice rhs (if start <? off then off - start else 0)
+                                  (if off + ewidth p <=? start + nlen rhs then off + ewidth p - start else nlen rhs)) cond
+                             ++ rest) old' =
+                     wa_run rho i (width (ss i)) rest
+                       (wa_run rho i (width (ss i))
+                          (if off + ewidth p <=? start then []
+                           else if start + nlen rhs <=? off then []
+                           else emit_assign selnets p (if start <? off then 0 else start - off)
+                                  (nslice rhs (if start <? off then off - start else 0)
+                                     (if off + ewidth p <=? start + nlen rhs then off + ewidth p - start else nlen rhs)) cond) old')).
+    { destruct (off + ewidth p <=? start); [reflexivity|]. destruct (start + nlen rhs <=? off); [reflexivity|]. apply wa_run_app. }
+    rewrite Hsplit. subst rest. rewrite (IHp (off + ewidth p) _ Hf' Hd2 ltac:(lia)). rewrite Hpart.
+    destruct (wr curr p i b) as [k|] eqn:Ew.
+    - (* this part addresses the bit: no later part does *)
+      rewrite wr_cat_none; [reflexivity|].
+      intros q Hq. destruct (wr curr q i b) as [kq|] eqn:Eq; [|reflexivity].
+      exfalso. apply (disjointb_spec _ _ i (Hd1 q Hq)); [eapply wr_sigs; eauto|eapply wr_sigs; eauto].
+    - reflexivity. }
+  apply Hgen; auto. lia.
+Qed.
